@@ -75,4 +75,31 @@ theorem rebalance_raises_enough (b : Brk σ α) (srv : Srv σ α) (adm : List (O
     (kernel-checked on the model in `AlatorVerif/Findings.lean`) -/
 example : ((301:Rat)/2) * (20000 / 151) < 20000 := by norm_num
 
+/-! non-vacuity of `rebalance_raises_enough`: 100 shares of symbol 0 at a bid of 50, cash −500 after a tick without
+    trades: the liquidation of 500 + 1000 succeeds with a sale of ceil(1500 / 50) = 30 shares, worth exactly 1500 -/
+section
+def exQ : Quote Rat := ⟨50, 51, 10⟩
+def exSrv : Srv Nat Rat :=
+  { dates := [10, 20], quotes := fun _ s => if s = 0 then some exQ else none, pos := 0, date := 10,
+    exch := { book := { inner := [], last := 0 }, log := [], buffer := [] } }
+def exBrk : Brk Nat Rat :=
+  { cash := -500, hold := fun s => if s = 0 then some 100 else none, pend := fun _ => none,
+    latest := fun s => if s = 0 then some exQ else none, log := [], costs := [], failed := false }
+
+def isOkWith (e : CashEv Rat) (x : Rat) : Bool := match e with | .wOk c => c == x | _ => false
+
+example : (afterBooking exBrk exSrv []).cash < 0 := by decide +kernel
+example : isOkWith (withdrawLiq .repaired (afterBooking exBrk exSrv []) (exSrv.tick []).2 [0]
+    ((afterBooking exBrk exSrv []).cash * (-1) + 1000.0)).1 1500 = true := by decide +kernel
+example : ∀ s q, (afterBooking exBrk exSrv []).latest s = some q → 0 < q.bid := by
+  intro s q h
+  have hl : (afterBooking exBrk exSrv []).latest s = if s = 0 then some exQ else none := by
+    simp [afterBooking, mergedQuotes, Srv.tick, exSrv, exBrk, Uist.tick, Book.execute, matchPass]
+    split <;> simp_all
+  rw [hl] at h
+  split at h
+  · cases h; decide +kernel
+  · cases h
+end
+
 end C10
